@@ -2,6 +2,7 @@
 // the string enumerator, printable forms, and the boring reference definitions.
 #pragma once
 #include "mc.hpp"
+#include <cstdio>
 #include <cstdlib>
 #include <cstring>
 #include <string>
@@ -24,22 +25,29 @@ struct Exact
     char *p;
     size_t n;
 #ifdef C19_GUARD
+    guard::Region *own = nullptr; // sizes beyond the pool get a mapping of their own
     static guard::Region *region(size_t n, int slot)
     {
         static guard::Region *pool[8][160];
-        if (n >= 160 || slot >= 8)
-            mc::harness_error("Exact: size %zu slot %d out of pool", n, slot);
+        if (slot >= 8)
+            mc::harness_error("Exact: slot %d out of pool", slot);
         if (!pool[slot][n])
             pool[slot][n] = new guard::Region(n, true);
         return pool[slot][n];
     }
     Exact(size_t n_, int slot, int fill = 0x5A) : n(n_)
     {
-        p = (char *)region(n, slot)->p;
+        if (n < 160)
+            p = (char *)region(n, slot)->p;
+        else
+        {
+            own = new guard::Region(n, true);
+            p = (char *)own->p;
+        }
         if (n)
             memset(p, fill, n);
     }
-    ~Exact() {}
+    ~Exact() { delete own; }
 #else
     char *blk;
     Exact(size_t n_, int /*slot*/, int fill = 0x5A) : n(n_)
@@ -116,6 +124,123 @@ static inline Str esc(const Toks &t)
     for (size_t i = 0; i < t.size(); i++)
         r += (i ? "," : "") + esc(t[i]);
     return r + "]";
+}
+
+// bounded printable form for long inputs: head ... tail (len)
+static inline Str escb(const Str &s)
+{
+    if (s.size() <= 48)
+        return esc(s);
+    return esc(s.substr(0, 20)) + "..." + esc(s.substr(s.size() - 12)) + mc::fmt("(len %zu)", s.size());
+}
+static inline Str escb(const Toks &t)
+{
+    Str r = mc::fmt("%zu tokens [", t.size());
+    for (size_t i = 0; i < t.size() && i < 3; i++)
+        r += (i ? "," : "") + escb(t[i]);
+    if (t.size() > 3)
+        r += ",...," + escb(t.back());
+    return r + "]";
+}
+
+// ---------------------------------------------------------------------------
+// long inputs: lengths around 2^7, 2^8 (and 2^16 in thorough) x a few patterns.
+// A width-8 or width-16 counter/index somewhere in the code under test makes
+// byte i and byte i-256 (i-65536) indistinguishable, so the filler has period
+// 251 over 7 letters (251 and 7 are coprime to 256 and 65536).
+// ---------------------------------------------------------------------------
+static inline std::vector<size_t> long_lengths()
+{
+    std::vector<size_t> v = {127, 128, 255, 256, 257, 300, 1000};
+    if (mc::thorough())
+    {
+        v.push_back(65535);
+        v.push_back(65536);
+        v.push_back(65537);
+    }
+    return v;
+}
+static const int LONG_NPOS = 7;
+static inline size_t long_pos(int k, size_t L)
+{ // {0,1,254,255,256,257,len-1}, folded into the string when it is shorter
+    static const size_t P[6] = {0, 1, 254, 255, 256, 257};
+    size_t p = k < 6 ? P[k] : L - 1;
+    return L ? p % L : 0;
+}
+static inline char long_filler(size_t i) { return "abcdefg"[(i % 251) % 7]; }
+enum
+{
+    LP_TOKEN,   // one long token (period-251 filler)
+    LP_PERIOD,  // filler with a delimiter every 7th byte
+    LP_DELIMS,  // delimiters only
+    LP_ALT,     // "a" and delimiter alternating: len/2 one-letter tokens
+    LP_CMD,     // 'c' repeated (a command name / path component when len == 300)
+    LP_ONE_DELIM, // +k: filler 'a' with ONE delimiter at long_pos(k)
+    LP_ONE_CHAR = LP_ONE_DELIM + LONG_NPOS, // +k: delimiters with ONE 'a' at long_pos(k)
+    LP_COUNT = LP_ONE_CHAR + LONG_NPOS
+};
+static inline Str long_pattern(int v, size_t L, char delim, const char **name)
+{
+    Str s(L, 'a');
+    static char nm[64];
+    if (v == LP_TOKEN)
+    {
+        for (size_t i = 0; i < L; i++)
+            s[i] = long_filler(i);
+        *name = "one-token";
+    }
+    else if (v == LP_PERIOD)
+    {
+        for (size_t i = 0; i < L; i++)
+            s[i] = (i % 7 == 6) ? delim : long_filler(i);
+        *name = "period-251-delim-every-7";
+    }
+    else if (v == LP_DELIMS)
+    {
+        s.assign(L, delim);
+        *name = "delimiters-only";
+    }
+    else if (v == LP_ALT)
+    {
+        for (size_t i = 0; i < L; i++)
+            s[i] = (i % 2) ? delim : 'a';
+        *name = "one-letter-tokens";
+    }
+    else if (v == LP_CMD)
+    {
+        s.assign(L, 'c');
+        *name = "c-repeated";
+    }
+    else if (v < LP_ONE_CHAR)
+    {
+        size_t p = long_pos(v - LP_ONE_DELIM, L);
+        s[p] = delim;
+        snprintf(nm, sizeof nm, "one-delimiter-at-%zu", p);
+        *name = nm;
+    }
+    else
+    {
+        size_t p = long_pos(v - LP_ONE_CHAR, L);
+        s.assign(L, delim);
+        s[p] = 'a';
+        snprintf(nm, sizeof nm, "one-letter-at-%zu", p);
+        *name = nm;
+    }
+    return s;
+}
+// first choice of every long sub-check: (length, pattern)
+static inline Str long_input(char delim, const char *what, int *variant = nullptr)
+{
+    std::vector<size_t> Ls = long_lengths();
+    int u = mc::choose((int)Ls.size() * LP_COUNT);
+    size_t L = Ls[u / LP_COUNT];
+    int v = u % LP_COUNT;
+    const char *nm = "";
+    Str s = long_pattern(v, L, delim, &nm);
+    if (variant)
+        *variant = v;
+    mc::describe("%s: len=%zu pattern=%s delimiter=%s", what, L, nm, esc(Str(1, delim)).c_str());
+    return s;
 }
 
 // ---------------------------------------------------------------------------
